@@ -263,8 +263,15 @@ def forwarding(rep: Report, prog: Program, strict: bool = True) -> None:
         call_params = [p for p in dec_params if p not in RETRY_CTOR_PARAMS]
         check_forward(rep, prog, inner, lambda e: e.is_ctor("RetryPolicy"), ctor_params, {}, "decorator-ctor-sync", required_kw=RETRY_CTOR_PARAMS)
         check_forward(rep, prog, inner, lambda e: e.is_ctor("AsyncRetryPolicy"), ctor_params, {}, "decorator-ctor-async", required_kw=RETRY_CTOR_PARAMS)
+        # the wrappers: whatever functions the inner decorator returns (its own nested functions, or functions nested in
+        # a helper such as `_wrap_sync(func, policy, call_options)` that did not exist when the rules were written)
+        returned_fns = {}
+        for p in engine(prog).paths(inner):
+            if p.exit[0] == "return" and isinstance(p.exit[1], tuple) and len(p.exit[1]) == 2 and p.exit[1][0] == "global" and p.exit[1][1] in prog.funcs:
+                g = prog.funcs[p.exit[1][1]]
+                returned_fns["async_wrapper" if g.is_async else "wrapper"] = g
         for wname, tgt in (("wrapper", "RetryPolicy.call"), ("async_wrapper", "AsyncRetryPolicy.call")):
-            wf = inner.nested.get(wname)
+            wf = inner.nested.get(wname) or returned_fns.get(wname)
             if wf is None:
                 raise AnalysisError(f"decorator {wname} vanished")
             check_forward(rep, prog, wf, ends(tgt), [p for p in call_params if p != "operation"], {"operation": "op_name"}, "decorator-call", required_kw=call_params)
@@ -760,6 +767,14 @@ def decorator_wraps(rep: Report, rid: str, prog: Program) -> None:
         is_async = [pol for a, pol, _ in p.conds if a[0] == "pure" and "iscoroutinefunction" in str(a[1])]
         target = v[1] if isinstance(v, tuple) and v[0] == "global" else None
         wf = wrappers.get(target) if target else None
+        if wf is None and target in prog.funcs:
+            # a wrapper made by a helper that did not exist when the rules were written (`_wrap_sync(func, policy, opts)`
+            # returning its nested `wrapper`): still a wrapper of the library, whose forwarding R12.3 checks
+            from ..paths import default_inline
+
+            g = prog.funcs[target]
+            if g.parent is not None and default_inline()(g.parent):
+                wf = g
         problem = None
         if wf is None:
             problem = f"returns {show(v)} instead of a wrapper that runs the function under the policy (the decorated function would bypass retries, events and hooks)"
